@@ -401,7 +401,7 @@ pub fn run_main(scn: &dyn Scenario, thorough: bool, seed: u64, workers: usize) -
     let mut alive = workers;
     let mut harness_errors: Vec<String> = Vec::new();
     let mut died: Vec<(usize, String)> = Vec::new();
-    let stuck_after = Duration::from_secs(if thorough { 240 } else { 90 });
+    let stuck_after = Duration::from_secs(if thorough { 900 } else { 300 });
     while alive > 0 {
         match rx.recv_timeout(Duration::from_millis(500)) {
             Ok(Msg::Line(w, line)) => {
